@@ -1291,7 +1291,8 @@ impl<'a, T: 'a + IO> Interpreter<'a, T> {
     fn create_new_list_datatype(&mut self, new_list: Vec<DataType>) -> DataType {
         // self.total_allocated_object_count is used as a parameter in gc to determine
         // if its time collect garbage
-        self.total_allocated_object_count += new_list.len();
+        // list itself is counted too, otherwise empty lists would never trigger gc
+        self.total_allocated_object_count += new_list.len() + 1;
 
         if self.free_lists.len() > 0 {
             let free_index = self.free_lists.pop().unwrap();
@@ -1306,7 +1307,8 @@ impl<'a, T: 'a + IO> Interpreter<'a, T> {
     fn create_new_nameless_record_datatype(&mut self, new_record: HashMap<String, DataType>) -> DataType {
         // self.total_allocated_object_count is used as a parameter in gc to determine
         // if its time collect garbage
-        self.total_allocated_object_count += new_record.len();
+        // record itself is counted too, otherwise empty records would never trigger gc
+        self.total_allocated_object_count += new_record.len() + 1;
 
         if self.free_nameless_records.len() > 0 {
             let free_index = self.free_nameless_records.pop().unwrap();
